@@ -121,6 +121,9 @@ func c13Run(c *mon.Ctx, unit int) {
 		default:
 			s = gen.Everything(r, gen.EverythingOpts{MaxDepth: r.Range(1, 4), MaxWidth: 4}).S
 		}
+		if k == 2 && unit%4 == 0 {
+			s = &model.Schema{Root: gen.BigShape(r)}
+		}
 		s.OptKeys = r.Chance(1, 8)
 		if k%4 == 1 {
 			// false-valued rules, several on one node: inert whatever their order
